@@ -387,6 +387,11 @@ func handleCreatePermissionRequest(req Request, stunMsg *stun.Message) error {
 	addCount := 0
 	errorCode := stun.CodeBadRequest
 
+	// RFC 5766 Section 9.2: the request is processed as a whole. Validate every
+	// XOR-PEER-ADDRESS first and install (or refresh) permissions only when all
+	// of them are acceptable, so that a request answered with an error leaves no
+	// permission behind.
+	var peers []proto.PeerAddress
 	if err := stunMsg.ForEach(stun.AttrXORPeerAddress, func(m *stun.Message) error {
 		var peerAddress proto.PeerAddress
 		if err := peerAddress.GetFrom(m); err != nil {
@@ -410,6 +415,14 @@ func handleCreatePermissionRequest(req Request, stunMsg *stun.Message) error {
 			return err
 		}
 
+		peers = append(peers, peerAddress)
+
+		return nil
+	}); err != nil {
+		peers = nil
+	}
+
+	for _, peerAddress := range peers {
 		req.Log.Debugf("Adding permission for %s", net.JoinHostPort(
 			peerAddress.IP.String(), strconv.Itoa(peerAddress.Port)))
 
@@ -422,10 +435,6 @@ func handleCreatePermissionRequest(req Request, stunMsg *stun.Message) error {
 			req.PermissionTimeout,
 		))
 		addCount++
-
-		return nil
-	}); err != nil {
-		addCount = 0
 	}
 
 	respClass := stun.ClassSuccessResponse
